@@ -48,7 +48,7 @@ def _masks(nsubs):
 def sym_send(nsubs, cap, lazy):
     """send() entered from any invariant state, including blocking on a full queue and resuming from a
     re-havocked state with a stale message number."""
-    sim = Sim(nsubs, lazy, cap, lmax=(3 if lazy else cap))
+    sim = Sim(nsubs, lazy, cap, lmax=(4 if lazy else cap))
     mb = sim.mb
     pre = sim.havoc(closed=None, sender="sending")
     n0 = pre["n"]
@@ -185,14 +185,15 @@ def sym_explicit_deadlock(nsubs, cap):
 
 
 # ---------------------------------------------------------------------------- read
-def sym_read(nsubs, j, cap, lazy, drivers, phase):
+def sym_read(nsubs, j, cap, lazy, drivers, phase, numbering="default"):
     """_read for subscriber j, one section kind per run (sections are independent inductive steps):
     phase 'entry0': first entry (next_number = 0) from any invariant state -> grab or block;
     phase 'resume': woken from a wait in ANY invariant state with ANY reader position (closure cell
                     rewritten) -> grab / yield / garbage-collect / notify;
     phase 'entry':  a later entry (next_number symbolic) from any invariant state -> grab or block."""
-    sim = Sim(nsubs, lazy, cap, drivers=drivers, lmax=(3 if lazy else cap))
+    sim = Sim(nsubs, lazy, cap, drivers=drivers, lmax=(4 if lazy else cap), numbering=numbering)
     mb = sim.mb
+    fix_closed = False if numbering == "explicit" else None
     sec = {"i": 0, "pre": None, "post": None, "nn": 0, "checked": 0}
     gen = mb._read(subscriber_i=j)
     vals = []
@@ -215,7 +216,7 @@ def sym_read(nsubs, j, cap, lazy, drivers, phase):
         sec["i"] += 1
         if sec["i"] == 1:
             if phase == "entry0":
-                st, sec["target"] = sim.havoc(tie_r={j: -1}, waiting={j: None}), True
+                st, sec["target"] = sim.havoc(tie_r={j: -1}, waiting={j: None}, closed=fix_closed), True
             else:
                 # empty mailbox: the reader blocks at once
                 mb._n_sent = 0
@@ -229,7 +230,7 @@ def sym_read(nsubs, j, cap, lazy, drivers, phase):
             # phase 'entry': second acquisition, reader position is symbolic by now
             nn = sec["post"]["r"][j] + 1
             del vals[:]
-            st = sim.havoc(tie_r={j: nn - 1}, waiting={j: None})
+            st = sim.havoc(tie_r={j: nn - 1}, waiting={j: None}, closed=fix_closed)
             sec["pre"], sec["nn"], sec["post"], sec["target"] = st, nn, None, True
         sim.reset_notes()
 
@@ -259,7 +260,7 @@ def sym_read(nsubs, j, cap, lazy, drivers, phase):
         nn = fresh_int(f"nn{sim.k}", 0, mbox.N_MAX)
         mbox.next_number_cell(pred).cell_contents = nn
         if phase == "resume":
-            st = sim.havoc(tie_r={j: nn - 1}, waiting={j: nn}, closed=None)
+            st = sim.havoc(tie_r={j: nn - 1}, waiting={j: nn}, closed=fix_closed)
             assume(pred())
             sec["target"] = True
         else:
@@ -328,7 +329,7 @@ def sym_read(nsubs, j, cap, lazy, drivers, phase):
 
 # ---------------------------------------------------------------------------- close / future
 def sym_close(nsubs, cap, lazy):
-    sim = Sim(nsubs, lazy, cap, lmax=(3 if lazy else cap))
+    sim = Sim(nsubs, lazy, cap, lmax=(4 if lazy else cap))
     mb = sim.mb
     pre = sim.havoc(closed=False, sender="closing")
     last = {"st": pre}
@@ -391,7 +392,7 @@ def sym_future(pos):
 def sym_no_deadlock(nsubs, cap, lazy, drivers, sender):
     """No invariant state has every thread blocked on a false predicate (default numbering).
     sender: 'send' (blocked in send on can_write), 'gate' (lazy: blocked on _can_fetch), 'closed' (finished)."""
-    sim = Sim(nsubs, lazy, cap, drivers=drivers, lmax=(3 if lazy else cap))
+    sim = Sim(nsubs, lazy, cap, drivers=drivers, lmax=(4 if lazy else cap))
     mb = sim.mb
     st = sim.havoc(closed=(sender == "closed"))
     conds = []
@@ -570,7 +571,7 @@ def sym_twin_send():
 
 # ---------------------------------------------------------------------------- grids
 def _caps(tier):
-    return [1, 2, 3] if tier == "quick" else [1, 2, 3, 4]
+    return [1, 2, 4] if tier == "quick" else [1, 2, 3, 4, 5]
 
 
 def _subs(tier):
@@ -592,6 +593,10 @@ def _g_read(tier):
                     g.append(dict(nsubs=s, j=j, cap=c, lazy=False, drivers=[True] * s, phase=ph))
                 for mask in _masks(s):
                     g.append(dict(nsubs=s, j=j, cap=None, lazy=True, drivers=mask, phase=ph))
+            for ph in ("entry0", "resume"):
+                for c in _caps(tier):
+                    if c >= 2:
+                        g.append(dict(nsubs=s, j=j, cap=c, lazy=False, drivers=[True] * s, phase=ph, numbering="explicit"))
     return g
 
 
